@@ -84,7 +84,14 @@ Print Assumptions bam_spec_bin_only.
 
 (** The shared-vs-private buffer decision (block size <= 4096) does not
     influence the result on any input, and no record returned by Read retains
-    a slice of the shared buffer. *)
+    a slice of storage the reader reuses for a later record: not of the inline
+    buffer (the block is marked shared and bytes() copies), and not of a long
+    record's block (newBuffer allocates it in the call: every long record has
+    its own allocation).  These three facts are read off newBuffer and
+    buffer.bytes by gen ([bam_newBuffer_private_fresh],
+    [bam_newBuffer_inline_shared], [bam_buffer_bytes_copies]); the second
+    component of the result is [storage_reused shared] for a record that
+    keeps Seq/Qual/aux slices. *)
 Theorem shared_buffer_irrelevant :
   (forall omit nrefs data, decode_record omit nrefs true data = decode_record omit nrefs false data) /\
   (forall omit nrefs sh data res, decode_record omit nrefs sh data = Ok res -> snd res = false).
